@@ -941,7 +941,7 @@ class C18(fw.Check):
             if special > 0.96 and any(graph[m] for m in names):
                 n = rng.choice([m for m in names if graph[m]])
                 lst = frag.get(n) or [None] * len(graph[n])
-                lst[rng.randrange(len(lst))] = rng.choice(FRAGS_BAD)     # oracle-only, known finding
+                lst[rng.randrange(len(lst))] = rng.choice(FRAGS_BAD)     # oracle-only (left unresolved)
                 frag[n] = lst
             if frag:
                 case["frag"] = frag
@@ -1214,35 +1214,11 @@ class C18(fw.Check):
     # -- known findings ---------------------------------------------------------
     def finding_key(self, case, obs, failure):
         """
-        Two narrow shapes (both reproduce sequentially on the unchanged tree): an include whose
-        target parses but has no section (`term.sections[0]` -> IndexError) and an include with a
-        fragment naming no section of its target (`get_section_by_path` -> ValueError). Only the
-        failure that names this exception in a case that has such an include is classified.
+        No open finding. The two shapes classified here until 2026-09-30 - an include whose target
+        parses but has no section (IndexError) and an include with a fragment naming no section of
+        its target (ValueError) - are repaired (2ac71b2, f376b4e on work-fixC18): such an include
+        is left unresolved, so a raise from these inputs is a VIOLATION again.
         """
-        vs = views(case)
-
-        def may_be(n, kinds):
-            return any(v[n][0] in kinds for v in vs)      # now, or in a cache copy that is served
-
-        def has_include(pred):
-            for n, incs in case["graph"].items():
-                if not may_be(n, ("doc",)):
-                    continue
-                for k, target in enumerate(incs):
-                    if may_be(target, PARSABLE) and pred(n, k, target):
-                        return True
-            return False
-        if " raised IndexError " in failure or " died with IndexError " in failure:
-            if has_include(lambda n, k, t: kind_of(case, t) == "nosec"
-                           and frag_of(case, n, k) is None):
-                return "include-of-document-without-sections-indexerror"
-            if any(kind_of(case, name) == "nosec" and op == "include"
-                   for op, _tab, name in case["prog"]):
-                return "include-of-document-without-sections-indexerror"
-        if " raised ValueError " in failure or " died with ValueError " in failure:
-            if has_include(lambda n, k, t: frag_of(case, n, k) in FRAGS_BAD
-                           or (frag_of(case, n, k) is not None and kind_of(case, t) == "nosec")):
-                return "include-fragment-without-target-valueerror"
         return None
 
     def tag(self, case, obs):
